@@ -354,10 +354,11 @@ func fileReadAux(L *LState, file *lFile, idx int) int {
 			L.Push(LString(string(buf)))
 		case LString:
 			options := L.CheckString(i)
-			if len(options) > 0 && options[0] != '*' {
+			if len(options) < 2 || options[0] != '*' {
 				L.ArgError(2, "invalid options:"+options)
 			}
-			for _, opt := range options[1:] {
+			// only the character after '*' is significant: "*all", "*line" and "*number" are "*a", "*l" and "*n"
+			for _, opt := range options[1:2] {
 				switch opt {
 				case 'n':
 					var v LNumber
